@@ -23,3 +23,10 @@ Eval vm_compute in (N.of_nat (length tree_cases), count_safe as_written tree_cas
 Eval vm_compute in
   (let l := filter (fun t => match t_ctx t with CTap => false | _ => match sat_data (ext_of (cx (t_ctx t)) (t_ms t)) with Some _ => true | None => false end end) tree_cases in
    (N.of_nat (length l), N.of_nat (length (filter (fun t => ops_covered as_written (cx (t_ctx t)) (t_ms t)) l)))).
+
+(* coverage of the execution-depth theorem: (well-typed scripts with a satisfaction figure, of which in
+   depth_covered as_written, of which in depth_covered pre_fix, all scripts) *)
+Eval vm_compute in
+  (let l := filter (fun t => match type_of (t_ms t), sat_data (ext_of (cx (t_ctx t)) (t_ms t)) with ROk _, Some _ => true | _, _ => false end) tree_cases in
+   (N.of_nat (length l), N.of_nat (length (filter (fun t => depth_covered as_written (cx (t_ctx t)) (t_ms t)) l)),
+    N.of_nat (length (filter (fun t => depth_covered pre_fix (cx (t_ctx t)) (t_ms t)) l)), N.of_nat (length tree_cases))).
